@@ -42,7 +42,47 @@ var c10Nonce int64
 
 var c10Kinds = []string{"Validate", "ValidateWithConfiguration", "CompileProfile", "ValidateCompiled", "ValidateCompiledWithConfiguration", "CompileThenValidate"}
 
+// heavyProfile: many validations, each an `or` of several alternatives - hundreds of generated rule bodies. Whatever
+// the translator meters while it expands them (a budget, a counter, a table) belongs to one compilation.
+func heavyProfile(nv, ops int) string {
+	var sb strings.Builder
+	sb.WriteString("profile: heavy\nprefixes:\n  ex: \"http://ex.org/v#\"\nviolation:\n")
+	for i := 0; i < nv; i++ {
+		fmt.Fprintf(&sb, "- v%d\n", i)
+	}
+	sb.WriteString("validations:\n")
+	for i := 0; i < nv; i++ {
+		fmt.Fprintf(&sb, "  v%d:\n    targetClass: ex.Test\n    or:\n", i)
+		for k := 0; k < ops; k++ {
+			fmt.Fprintf(&sb, "    - propertyConstraints:\n        ex.p%d:\n          minCount: %d\n", k, 1+(i%3))
+		}
+	}
+	return sb.String()
+}
+
+func genC10Heavy(t *rapid.T) c10Case {
+	var c c10Case
+	c.Profiles = []string{heavyProfile(rapid.SampledFrom([]int{30, 36, 45}).Draw(t, "heavyValidations"), 6)}
+	g := &m.Graph{}
+	n := g.Add(classTest)
+	g.Nodes[n].AddVal(m.NS+"p0", m.LV(m.S("a")))
+	c.Docs = []string{g.JSONLD(m.LDOpts{}), "[]"}
+	for i := 0; i < 3; i++ {
+		cfg := genRepCfg(t, fmt.Sprintf("cfg%d", i))
+		c.Configs = append(c.Configs, cfg)
+	}
+	c.ColdFirst = rapid.Bool().Draw(t, "coldFirst")
+	c.MaxProcs = 16
+	for g := 0; g < 4; g++ {
+		c.Goroutines = append(c.Goroutines, []c10Op{{Kind: pick(t, []string{"CompileProfile", "Validate", "CompileThenValidate"}, "kind"), Profile: 0, Doc: rapid.IntRange(0, 1).Draw(t, "d")}})
+	}
+	return c
+}
+
 func genC10(t *rapid.T) c10Case {
+	if rapid.IntRange(0, 15).Draw(t, "heavy") == 0 {
+		return genC10Heavy(t)
+	}
 	var c c10Case
 	np := rapid.IntRange(1, 3).Draw(t, "profiles")
 	// different profiles may carry the same name (and always share validation names): nothing may be keyed by it
